@@ -149,7 +149,7 @@ def queries(tier, seed):
     qs = []
 
     def add(name, params, what, **kw):
-        qs.append(Q(name, "outbound", params, cto=kw.get("t", t), pto=kw.get("t", t), what=what))
+        qs.append(Q(name, "outbound", params, cto=kw.get("t", t), pto=kw.get("t", t), what=what, split=kw.get("split", 0)))
     LN = ["read", "_run", "_set_selector_events_mask", "send_message_from_queue", "write", "_write"]
     add("one/ops/P2", {"role": "CLIENT", "submit": [["app_req", "app_req"]], "K": 48, "maxp": 2},
         "1 submitter, 2 requests; submitter / state machine / transport at synchronisation-operation granularity, <= 2 preemptions")
@@ -158,13 +158,13 @@ def queries(tier, seed):
     add("partial/ops/P2", {"role": "SERVER", "submit": [["app_req", "app_req"]], "plan": [7, 1], "K": 48, "maxp": 2},
         "socket accepts 7 bytes, then 1 byte, then everything: 1 submitter, 2 requests, <= 2 preemptions")
     add("one/lines/P2", {"role": "CLIENT", "submit": [["app_req", "app_req"]], "K": 64, "maxp": 2, "lines": LN},
-        "preemption point before every statement of the transport / association send-path methods, <= 2 preemptions")
+        "preemption point before every statement of the transport / association send-path methods, <= 2 preemptions", split=2)
     add("inbound-dwr/ops/P1", {"role": "CLIENT", "submit": [["app_req"]], "presubmitted": True, "inbound": "dwr", "K": 64, "maxp": 1},
         "a request is in the send queue; a DWR arrives at an arbitrary moment (read event vs pending write; the DWA must be written too): network / transport / "
         "receive worker / state machine, <= 1 preemption")
     add("inbound-dwr/lines/P1", {"role": "CLIENT", "submit": [["app_req"]], "presubmitted": True, "inbound": "dwr", "K": 64, "maxp": 1,
                                  "lines": ["read", "write", "_set_selector_events_mask"]},
-        "same with a preemption point before every statement of read(), write() and _set_selector_events_mask()", t=max(t, 600))
+        "same with a preemption point before every statement of read(), write() and _set_selector_events_mask()", t=max(t, 600), split=3)
     if tier != "quick":
         add("partial/lines/P2", {"role": "CLIENT", "submit": [["app_req", "app_req"]], "plan": [1, 30], "K": 64, "maxp": 2, "lines": LN},
             "partial writes 1, 30, rest with statement-level preemption, <= 2 preemptions")
